@@ -60,9 +60,9 @@ def _worker(args: tuple[str, str, tuple[int, int]]) -> dict:
         r = verify(c, tier, chunk=chunk)
         d = r.__dict__.copy()
     except CheckerError as ex:
-        d = {"contract": name, "target": c.target, "props": c.props, "status": "checker-error", "error": str(ex), "failures": [], "undecided": [], "n_obligations": 0, "n_discharged": 0, "interpreted": {}, "assumptions": [], "vcs": [], "by_backend": {}, "solver_time_s": 0.0, "wall_s": 0.0, "paths": 0, "outcomes": 0, "stats": {}, "canary": c.canary, "variants": 1, "reach_witness": None}
+        d = {"contract": name, "target": c.target, "props": c.props, "status": "checker-error", "error": str(ex), "failures": [], "undecided": [], "n_obligations": 0, "n_discharged": 0, "interpreted": {}, "assumptions": [], "vcs": [], "slow": [], "by_backend": {}, "solver_time_s": 0.0, "wall_s": 0.0, "paths": 0, "outcomes": 0, "stats": {}, "canary": c.canary, "variants": 1, "reach_witness": None}
     except BaseException as ex:  # noqa: BLE001
-        d = {"contract": name, "target": c.target, "props": c.props, "status": "error", "error": "".join(traceback.format_exception(ex))[-2000:], "failures": [], "undecided": [], "n_obligations": 0, "n_discharged": 0, "interpreted": {}, "assumptions": [], "vcs": [], "by_backend": {}, "solver_time_s": 0.0, "wall_s": 0.0, "paths": 0, "outcomes": 0, "stats": {}, "canary": c.canary, "variants": 1, "reach_witness": None}
+        d = {"contract": name, "target": c.target, "props": c.props, "status": "error", "error": "".join(traceback.format_exception(ex))[-2000:], "failures": [], "undecided": [], "n_obligations": 0, "n_discharged": 0, "interpreted": {}, "assumptions": [], "vcs": [], "slow": [], "by_backend": {}, "solver_time_s": 0.0, "wall_s": 0.0, "paths": 0, "outcomes": 0, "stats": {}, "canary": c.canary, "variants": 1, "reach_witness": None}
     return d
 
 
@@ -117,7 +117,9 @@ def run_check(prop: str, tier: str, only: str | None = None, jobs: int = 16, ver
             k = max(1, REGISTRY[n].ground_chunks) if REGISTRY[n].ground is not None else max(1, REGISTRY[n].vc_chunks)
             jobs_list.extend((n, tier, (i, k)) for i in range(k))
         jobs_list.sort(key=lambda j: (-REGISTRY[j[0]].weight, 0 if REGISTRY[j[0]].ground is not None else 1))
-        with ctx.Pool(min(jobs, max(1, len(jobs_list)))) as pool:
+        # one fresh fork of this (fully loaded) process per job: the solver input of a contract then does not depend on
+        # which jobs the same worker ran before (fresh-variable counters, z3 symbol tables), so solver times repeat
+        with ctx.Pool(min(jobs, max(1, len(jobs_list))), maxtasksperchild=1) as pool:
             for d in pool.imap_unordered(_worker, jobs_list, chunksize=1):
                 results.append(d)
                 if verbose:
@@ -240,6 +242,7 @@ def run_check(prop: str, tier: str, only: str | None = None, jobs: int = 16, ver
             "functions_interpreted": functions,
             "by_backend": by_backend,
             "solver_time_s": round(solver_time, 3),
+            "slowest_obligations": sorted((x for d in results for x in d.get("slow", [])), key=lambda x: -x["time_s"])[:12],
             "undecided": undecided[:50],
             "bounded": bounded,
             "known_findings_hit": [{"id": kh["entry"].get("id"), "contract": kh["contract"], "obligation": kh["failure"].get("name")} for kh in known_hit][:50],
